@@ -193,7 +193,7 @@ def norm(s):
     return re.sub(r'\s+', ' ', s).strip()
 
 
-def run_harnesses(repo, harnesses, jobs=8, timeout=900, extra_args=(), playback=True):
+def run_harnesses(repo, harnesses, jobs=8, timeout=900, extra_args=(), playback=True, playback_budget=600):
     """harnesses: list of names.  Returns (results, meta)."""
     meta = {'scratch': None}
     if not harnesses:
@@ -204,15 +204,20 @@ def run_harnesses(repo, harnesses, jobs=8, timeout=900, extra_args=(), playback=
     scratch = scratch_copy(repo)
     meta['scratch'] = scratch
     results = []
+    played = {}
     try:
         with concurrent.futures.ThreadPoolExecutor(max_workers=jobs) as ex:
             def work(h):
                 slot, lock = acquire_slot()
                 try:
                     r = run_one(scratch, h, slot, timeout, extra_args)
-                    if r['status'] == 'failed' and playback:
-                        # Kani's counterexample: the concrete values of every kani::any() of the harness
-                        r2 = run_one(scratch, h, slot, min(timeout, 1800), list(extra_args) + ['-Z', 'concrete-playback', '--concrete-playback=print'], keep_output=True)
+                    if r['status'] == 'failed' and playback and not played.get('done'):
+                        # Kani's counterexample: the concrete values of every kani::any() of the harness.  One
+                        # counterexample per check run is enough (the first failing harness to get here), and the
+                        # second CBMC run is bounded so that a violation is reported promptly.
+                        played['done'] = True
+                        budget = int(min(playback_budget, max(120, 4 * (r.get('cbmc_s') or 60))))
+                        r2 = run_one(scratch, h, slot, budget, list(extra_args) + ['-Z', 'concrete-playback', '--concrete-playback=print'], keep_output=True)
                         mt = re.search(r'Concrete playback unit test.*?```(.*?)```', r2.get('full_output', ''), re.S)
                         r['concrete_playback'] = mt.group(1).strip() if mt else None
                     return r
